@@ -119,16 +119,16 @@ Print Assumptions C15_decimal_text_by_groups.
 (* ======== "consume and move through the arguments as specified" — for both M and S (any b), any control record,
    and any function `rec` in the place of the recursive call ======== *)
 
-(* (7) ~n* / ~n:* / ~n@* : the cursor moves by n / back by n / to n and nothing else changes; by the definition it
-   never leaves 0..number of arguments. *)
-Theorem C15_move_law : forall b colon at_ ps c c' a,
-  dir_move b colon at_ ps c = Ok (c', a) ->
+(* (7) ~n* / ~n:* / ~n@* : the cursor moves by n / back by n / to n and nothing else changes; it
+   never leaves 0..number of arguments (an error otherwise; for the Go code since repo_fixes/C15-15). *)
+Theorem C15_move_law : forall colon at_ ps c c' a,
+  dir_move colon at_ ps c = Ok (c', a) ->
   exists n changed, first_int ps 1 = (GOk n, changed) /\ (colon && at_ = false) /\ a = false /\ extends c c' /\
     c_apos c' = (if colon then c_apos c - n else if at_ then (if changed then n else 0) else c_apos c + n)%Z.
 Proof. exact move_law. Qed.
 Print Assumptions C15_move_law.
 Theorem C15_move_stays_inside : forall colon at_ ps c c' a,
-  dir_move false colon at_ ps c = Ok (c', a) -> (0 <= c_apos c' <= nargs c)%Z.
+  dir_move colon at_ ps c = Ok (c', a) -> (0 <= c_apos c' <= nargs c)%Z.
 Proof. exact move_stays_inside. Qed.
 Print Assumptions C15_move_stays_inside.
 
